@@ -18,7 +18,7 @@ func init() {
 			"R9.1 atomic-replace typestate: the store path (storeDir joined with the store file name) is never handed to a truncating writer (WriteFile, Create, OpenFile with write flags); it is only the destination of os.Rename whose source is a temp file created in the same directory, and on every path from the creation to the rename the marshalled data is written and the file closed, with the error of every fallible operation on the file (or on writers wrapping it) checked; " +
 			"R9.2 acknowledge after save: every return of UpdateTargets that can be nil is the (wrapped) result of the saver, every nil return of the saver passes the rename, and the HTTP handler answers success only under err = nil; " +
 			"R9.3 what is persisted: Marshal and Unmarshal operate on the manager's own TargetsInfo; its Targets and IdleAt fields and every field of target.Target are exported without a '-' tag; " +
-			"R9.4 Load registers the status/idle rebuild (UpdateTargets) before any return; R9.5 nothing but the saver's temp file is ever removed, truncated or renamed away (the old-version store stays until it has been replaced). " +
+			"R9.4 Load registers the status/idle rebuild (UpdateTargets) before any return; R9.5 nothing but the saver's temp file is ever removed, truncated or renamed away (the old-version store stays until it has been replaced); R9.6 the old-version store is decoded only when reading the store path failed with a not-exist error. " +
 			"Not decided: byte-level content, file-system semantics beyond the atomicity of rename within a directory.",
 		Assumptions: []string{"go/types and go/ssa are correct", "os.Rename within one directory replaces the destination atomically", "errors.Wrap*(nil) = nil (reviewed in the pinned github.com/pkg/errors)"}})
 }
@@ -98,6 +98,7 @@ func runC09(p *engine.Prog, r *engine.Report) {
 	r.Min("R9.2-ack-after-save", 3)
 	r.Min("R9.3-persisted-fields", 3)
 	r.Min("R9.4-rebuild-after-load", 1)
+	r.Min("R9.6-old-store-fallback", 1)
 	var side []*ssa.Function
 	for _, fn := range p.Funcs {
 		if engine.InPkg(fn, pkgSide) {
@@ -375,6 +376,103 @@ func runC09(p *engine.Prog, r *engine.Report) {
 		"both operate on TargetsManager.targets", fmt.Sprintf("marshal: %v, unmarshal: %v", marshalT, unmarshalT))
 	checkJSONFields(r, "R9.3-persisted-fields", tInfo, []string{"Targets", "IdleAt"}, false)
 	checkJSONFields(r, "R9.3-persisted-fields", tTarget, nil, true)
+
+	// ---- R9.6: the old-version store is read only as a fallback for a store file that does not exist.
+	// A partial decode into the manager's TargetsInfo (the compatibility path: Targets only) must be reached only
+	// under "the read of the store path failed with a not-exist error": any other condition (nothing loaded, an
+	// empty assignment, a decode error) lets an old file override an assignment that was acknowledged.
+	if ld := p.SSAFunc(mLoad); ld != nil {
+		fi := p.Info(ld)
+		// not-exist tests on the error of a read of the store path
+		var notExist []*ssa.Call
+		for _, in := range allInstrs(ld) {
+			call, ok := in.(*ssa.Call)
+			if !ok {
+				continue
+			}
+			c := call.Common()
+			var e ssa.Value
+			switch {
+			case engine.CalleeIs(c, "os", "", "IsNotExist") && len(c.Args) == 1:
+				e = c.Args[0]
+			case engine.CalleeIs(c, "errors", "", "Is") && len(c.Args) == 2:
+				if u, ok := c.Args[1].(*ssa.UnOp); ok {
+					if g, ok := u.X.(*ssa.Global); ok && g.Name() == "ErrNotExist" && (g.Pkg.Pkg.Path() == "os" || g.Pkg.Pkg.Path() == "io/fs") {
+						e = c.Args[0]
+					}
+				}
+			}
+			if e == nil {
+				continue
+			}
+			ex, ok := e.(*ssa.Extract)
+			if !ok {
+				continue
+			}
+			rd, ok := ex.Tuple.(*ssa.Call)
+			if !ok || len(rd.Call.Args) == 0 || !isErrorType(ex.Type()) {
+				continue
+			}
+			rc := rd.Common()
+			isRead := engine.CalleeIs(rc, "io/ioutil", "", "ReadFile") || engine.CalleeIs(rc, "os", "", "ReadFile") ||
+				engine.CalleeIs(rc, "os", "", "Open") || engine.CalleeIs(rc, "os", "", "Stat") || engine.CalleeIs(rc, "os", "", "Lstat")
+			if isRead && isStorePath(fi, rc.Args[0]) {
+				notExist = append(notExist, call)
+			}
+		}
+		nPartial := 0
+		for _, in := range allInstrs(ld) {
+			call, ok := in.(*ssa.Call)
+			if !ok {
+				continue
+			}
+			c := call.Common()
+			var dst ssa.Value
+			if engine.CalleeIs(c, "encoding/json", "", "Unmarshal") {
+				dst = unwrapIface(c.Args[1])
+			} else if engine.CalleeIs(c, "encoding/json", "Decoder", "Decode") {
+				dst = unwrapIface(c.Args[len(c.Args)-1])
+			} else {
+				continue
+			}
+			fa, ok := dst.(*ssa.FieldAddr)
+			if !ok || engine.FieldOf(fa) == fTargets {
+				continue
+			}
+			// a field inside t.targets?
+			inner, ok := fa.X.(*ssa.FieldAddr)
+			if !ok || engine.FieldOf(inner) != fTargets {
+				continue
+			}
+			nPartial++
+			okk := false
+			var have []string
+			for _, ne := range notExist {
+				if g, h := fi.Implies(call.Block(), engine.TrueAtom(fi.T(ne).S)); g {
+					okk = true
+				} else {
+					have = h
+				}
+			}
+			why := "path condition: " + strings.Join(have, " ∧ ")
+			if !okk && len(notExist) > 0 {
+				// the condition may be carried by values merged at a join (a helper's results after expansion): decide path by path
+				if g, w := everyFeasiblePathPasses(ld, call.Block(), notExist); g {
+					okk = true
+				} else {
+					why = w + "; " + why
+				}
+			}
+			if len(notExist) == 0 {
+				why = "Load has no not-exist test on the error of reading the store path"
+			}
+			r.Check(okk, "R9.6-old-store-fallback", fmt.Sprintf("old-version decode#%d into %s", nPartial, fi.T(fa).S), "json decode at "+engine.FuncName(ld)+" ("+p.Rel(call.Pos())+")",
+				"reached only when reading the store path failed with a not-exist error (an existing store, even an empty one, is never overridden by the old-version file)", why)
+		}
+		if nPartial == 0 {
+			r.Add("R9.6-old-store-fallback", "old-version decode", engine.FuncName(ld), "no partial decode into the manager's TargetsInfo", "none", engine.Discharged)
+		}
+	}
 
 	// ---- R9.4
 	if ld := p.SSAFunc(mLoad); ld != nil {
